@@ -689,13 +689,37 @@ def large_block_stream(ctx, quick):
         if quick:
             combos = rng.sample(combos, 3)
         for comp, fmt in combos:
+            if too_many(ctx):
+                return
             cfg = V.Cfg(fmt, comp, bs, rng.choice(["UInt32", "UInt64"]), rng.choice(["<", ">"]))
             run_case(ctx, ds, cfg, idx, [], with_model=False)
             idx += 1
 
 
 # ------------------------------------------------------------------------------------------------ driver
+def guard_resources():
+    """a reader that misinterprets a header may ask numpy for gigabytes; keep such a run from exhausting the machine:
+    allocations beyond the limit fail with MemoryError, which is reported like any other exception"""
+    import resource
+    lim = 6 * 1024 ** 3
+    soft, hard = resource.getrlimit(resource.RLIMIT_AS)
+    if hard == resource.RLIM_INFINITY or hard > lim:
+        resource.setrlimit(resource.RLIMIT_AS, (lim, hard))
+
+
+def too_many(ctx):
+    """stop generating once the run has failed massively (the check fails anyway; bounds the run time)"""
+    n = sum(1 for v in ctx.violations if not v["what"].startswith("F-C"))
+    if n > 250:
+        if not ctx.extra.get("stopped_early"):
+            ctx.extra["stopped_early"] = True
+            ctx.notes.append("generation stopped early: more than 250 unexpected deviations")
+        return True
+    return False
+
+
 def run(ctx):
+    guard_resources()
     ctx.prove()
     t1_encoded_bytes(ctx)
     quick = ctx.tier == "quick"
@@ -728,6 +752,8 @@ def run(ctx):
         else:
             ds = gen_vtu(rng, npts=rng.choice(TARGET_N), ncells=rng.choice(TARGET_N[:20])) if rng.random() < 0.7 else gen_vtp(rng)
         for cfg in cfgs:
+            if too_many(ctx):
+                break
             run_case(ctx, ds, cfg, idx, pending)
             idx += 1
     tail = pending[-300:]
@@ -736,6 +762,8 @@ def run(ctx):
     # (b) random (configuration, data set) pairs with array lengths on the boundaries of the configuration
     n_rand = 1300 if quick else 30000
     for k in range(n_rand):
+        if too_many(ctx):
+            break
         cfg, ds = rand_pair(rng)
         run_case(ctx, ds, cfg, idx, pending)
         idx += 1
